@@ -361,7 +361,7 @@ static void gzip_reader(void)
 		for (int ni = 0; ni < 4; ni++)
 			for (int ci = 0; ci < 4; ci++)
 				for (int hcrc = 0; hcrc < 2; hcrc++)
-					for (int bufmode = 0; bufmode < 8; bufmode++)
+					for (int bufmode = 0; bufmode < 14; bufmode++)
 						for (int grow = 0; grow < 2; grow++) {
 							if (!v_mine(unit++))
 								continue;
@@ -379,13 +379,22 @@ static void gzip_reader(void)
 							uint32_t nb = bufmode == 1 || bufmode == 7 ? 0 : bufmode == 2 ? 1 : bufmode == 3 ? (uint32_t)(nl - 1) : bufmode == 4 ? (uint32_t)nl : bufmode == 5 ? (uint32_t)nl + 1 : 400;
 							uint32_t cb = bufmode == 1 || bufmode == 7 ? 0 : bufmode == 2 ? 1 : bufmode == 3 ? (uint32_t)(cl - 1) : bufmode == 4 ? (uint32_t)cl : bufmode == 5 ? (uint32_t)cl + 1 : 400;
 							uint32_t eb = bufmode == 1 || bufmode == 7 ? 0 : bufmode == 2 ? 1 : bufmode == 3 ? (uint32_t)(el ? el - 1 : 0) : bufmode == 4 ? (uint32_t)el : bufmode == 5 ? (uint32_t)el + 1 : 400;
-							if ((bufmode == 0 || bufmode == 7) && grow)
+							/* 8..13: every proper, non-empty subset of the three fields is discarded (NULL, capacity 0) while the others are
+							 * collected into exact-size (header CRC present) or generous buffers */
+							int nullmask = bufmode >= 8 ? bufmode - 7 : 0;
+							if (nullmask) {
+								R_NAME_NULL = nullmask & 1; R_COMM_NULL = nullmask >> 1 & 1; R_EXTRA_NULL = nullmask >> 2 & 1;
+								nb = R_NAME_NULL ? 0 : hcrc ? (uint32_t)nl : 400;
+								cb = R_COMM_NULL ? 0 : hcrc ? (uint32_t)cl : 400;
+								eb = R_EXTRA_NULL ? 0 : hcrc ? (uint32_t)el : 400;
+							}
+							if ((bufmode == 0 || bufmode == 7 || nullmask) && grow)
 								continue;
 							R_GROW = grow;
 							if (grow && (nl > 6 || cl > 6 || el > 6) && bufmode < 3)
 								continue; /* +1 growth from tiny buffers on long fields: many overflows, covered by the short fields */
 							snprintf(rdesc, sizeof rdesc, "extra=%d name=%d comment=%d hcrc=%d buffers=%s growth=%s", exl[ei], ni, ci, hcrc,
-								 bufmode == 0 ? "NULL" : bufmode == 7 ? "NULL/capacity-0" : bufmode == 1 ? "0" : bufmode == 2 ? "1" : bufmode == 3 ? "len-1" : bufmode == 4 ? "len" : bufmode == 5 ? "len+1" : "400", grow ? "+1" : "to-fit");
+								 nullmask ? (nullmask == 1 ? "name-NULL" : nullmask == 2 ? "comment-NULL" : nullmask == 3 ? "name+comment-NULL" : nullmask == 4 ? "extra-NULL" : nullmask == 5 ? "name+extra-NULL" : "comment+extra-NULL") : bufmode == 0 ? "NULL" : bufmode == 7 ? "NULL/capacity-0" : bufmode == 1 ? "0" : bufmode == 2 ? "1" : bufmode == 3 ? "len-1" : bufmode == 4 ? "len" : bufmode == 5 ? "len+1" : "400", grow ? "+1" : "to-fit");
 							isal_inflate_init(RST);
 							isal_gzip_header_init(&RHD);
 							memset(RNAME, 0xCC, sizeof RNAME); memset(RCOMM, 0xCC, sizeof RCOMM); memset(REXTRA, 0xCC, sizeof REXTRA);
